@@ -742,8 +742,11 @@ def pushPlus (x : M) (h : HLine) (dt : DiffType) : M :=
   { x with plus := x.plus ++ [h], st := .hunkPlus dt }
 def pushZero (x : M) (r : Row) (dt : DiffType) : M :=
   { x with buf := x.buf ++ [r], counter := x.counter - 1, st := .hunkZero dt }
-def pushOther (x : M) (r : Row) : M :=
-  { x with buf := x.buf ++ [r], st := .hunkZero .unified }
+def pushOther (x : M) (r : Row) (dt : DiffType) : M :=
+  { x with buf := x.buf ++ [r], st := .hunkZero dt }
+
+theorem stateDiffType_er (s : State) : stateDiffType s.er = stateDiffType s := by
+  cases s <;> rfl
 
 theorem N_pushMinus (x : M) (h : HLine) (dt : DiffType) :
     N (pushMinus x h dt) = via (fun k => pushMinus k h.er dt) (N x) := by
@@ -754,8 +757,8 @@ theorem N_pushPlus (x : M) (h : HLine) (dt : DiffType) :
 theorem N_pushZero (x : M) (r : Row) (dt : DiffType) :
     N (pushZero x r dt) = via (fun k => pushZero k r.er dt) (N x) := by
   simp [N, via, pushZero, isMergeConflict]
-theorem N_pushOther (x : M) (r : Row) :
-    N (pushOther x r) = via (fun k => pushOther k r.er) (N x) := by
+theorem N_pushOther (x : M) (r : Row) (dt : DiffType) :
+    N (pushOther x r dt) = via (fun k => pushOther k r.er dt) (N x) := by
   simp [N, via, pushOther, isMergeConflict]
 
 def flushIfPlus (m : M) : M := if isHunkPlus m.st then flushMP m else m
@@ -783,7 +786,7 @@ theorem hunkLinePush_eq (cfg : Cfg) (m2 : M) (l : L) : hunkLinePush cfg m2 l =
       match nParents dt with
       | .error e => .error e
       | .ok n => .ok (pushZero (flushMP m2) ⟨.zero, paintedPrefix cfg .zero dt ++ prepare cfg n l, m2.n⟩ dt)
-    | .ok none => .ok (pushOther (flushMP m2) ⟨.other, Text.expand cfg.tab l.raw, m2.n⟩) := by
+    | .ok none => .ok (pushOther (flushMP m2) ⟨.other, Text.expand cfg.tab l.raw, m2.n⟩ (stateDiffType m2.st)) := by
   unfold hunkLinePush
   cases newLineState m2.st l with
   | error e => rfl
@@ -805,7 +808,7 @@ theorem N_hunkLinePush (cfg : Cfg) (m : M) (l : L) : NE (hunkLinePush cfg (N m) 
   | error e => rfl
   | ok o =>
     cases o with
-    | none => simp only [NE_ok, N_pushOther, N_flushMP, N_N, Row.er_mk]
+    | none => simp only [NE_ok, N_pushOther, N_flushMP, N_N, Row.er_mk, stateDiffType_er]
     | some p =>
       obtain ⟨k, dt⟩ := p
       cases k <;> (simp only; cases nParents dt <;>
@@ -1487,7 +1490,7 @@ theorem P_hunkLinePre (p : List Row) (cfg : Cfg) (m : M) : PE p (hunkLinePre cfg
 theorem P_pushMinus (p : List Row) (x : M) (h : HLine) (dt : DiffType) : P p (pushMinus x h dt) = pushMinus (P p x) h dt := rfl
 theorem P_pushPlus (p : List Row) (x : M) (h : HLine) (dt : DiffType) : P p (pushPlus x h dt) = pushPlus (P p x) h dt := rfl
 theorem P_pushZero (p : List Row) (x : M) (r : Row) (dt : DiffType) : P p (pushZero x r dt) = pushZero (P p x) r dt := rfl
-theorem P_pushOther (p : List Row) (x : M) (r : Row) : P p (pushOther x r) = pushOther (P p x) r := rfl
+theorem P_pushOther (p : List Row) (x : M) (r : Row) (dt : DiffType) : P p (pushOther x r dt) = pushOther (P p x) r dt := rfl
 theorem P_flushIfPlus (p : List Row) (m : M) : P p (flushIfPlus m) = flushIfPlus (P p m) := by
   unfold flushIfPlus; pfields; split
   · rw [P_flushMP]
@@ -2268,7 +2271,7 @@ theorem idle_pushMinus (x : M) (h : HLine) (dt : DiffType) : Idle x (pushMinus x
 theorem idle_pushPlus (x : M) (h : HLine) (dt : DiffType) : Idle x (pushPlus x h dt) := Idle.of_eq rfl rfl
 theorem idle_pushZero (x : M) (r : Row) (dt : DiffType) : Idle x (pushZero x r dt) :=
   ⟨rfl, fun hc => by show x.counter - 1 ≤ -4096; omega⟩
-theorem idle_pushOther (x : M) (r : Row) : Idle x (pushOther x r) := Idle.of_eq rfl rfl
+theorem idle_pushOther (x : M) (r : Row) (dt : DiffType) : Idle x (pushOther x r dt) := Idle.of_eq rfl rfl
 theorem idle_flushMP (m : M) : Idle m (flushMP m) := Idle.of_eq (by simp) (by simp)
 
 theorem idle_hunkLinePush {cfg : Cfg} {m m' : M} {l : L} (e : hunkLinePush cfg m l = .ok m') : Idle m m' := by
